@@ -11,6 +11,9 @@ import core
 from core import HarnessError, log
 
 CRIT_CFG = 'SPECIFICATION Spec\nCONSTANTS MaxRects = %d XMax = %d Heights = {1,2} Mode = "criterion"\nINVARIANTS Unique NoShorterInside\nCHECK_DEADLOCK FALSE\n'
+FUN_CFG = ('SPECIFICATION Spec\nCONSTANTS MaxRects = %d XMax = %d Heights = %s\nINVARIANTS TriangulationTiles TriangleCount EveryPointCovered '
+           'DualIsTree Returns EndToStart IsShortest DequeFits\nCHECK_DEADLOCK FALSE\n')
+FUN_GOAL_CFG = 'SPECIFICATION Spec\nCONSTANTS MaxRects = 3 XMax = 3 Heights = {2}\nINVARIANTS %s\nCHECK_DEADLOCK FALSE\n'
 FIT_CFG = 'SPECIFICATION FSpec\nCONSTANTS MaxPath = %d\nINVARIANTS NeverBad TilesWhenDone\nPROPERTIES Termination Decreases\nCHECK_DEADLOCK FALSE\n'
 # GeomTrace extends three modules with constants: they are irrelevant for trace validation but must be bound
 TRACE_CFG = 'SPECIFICATION TraceSpec\nCONSTANTS Props = {"%s"}\nPOSTCONDITION TraceAccepted\nCHECK_DEADLOCK FALSE\n'
@@ -260,7 +263,7 @@ def run_geom(work, driver, prop, cases, tag="geom", budget_ms=3000, mem_mb=300):
     t1 = time.time()
     outs = core.pmap(lambda d: validate(work, d, os.path.join(d, "trace.ndjson"), prop), dirs)
     log("[%s] %d cases in %d shards: driver %.1fs, TLC %.1fs" % (tag, len(cases), len(dirs), t1 - t0, time.time() - t1))
-    stats = dict(calls=0, returns=0, judged=0, nontriv=0, viol=0, panics=0, aborts=0, unjudged=0)
+    stats = dict(calls=0, returns=0, judged=0, nontriv=0, viol=0, panics=0, aborts=0, unjudged=0, l3=0)
     viols = []
     states = trans = 0
     for v, st, (gen, dist) in outs:
@@ -328,12 +331,18 @@ def classify(c):
 def finish(prop, tier, seed, t0, cases, viols, stats, states, trans, known, rule, models, extra=None):
     byid = {c["case"]: c for c in cases}
     os.makedirs(os.path.join(core.OUT, "replays"), exist_ok=True)
-    new, known_hits, byclause = [], {}, {}
+    new, known_hits, byclause, drift = [], {}, {}, {}
     for v in viols:
         c = byid[v[0]]
         where = v[2] if len(v) > 2 else None
         for pc in v[1]:
             if pc[0] != prop:
+                continue
+            if pc[1].startswith("L3_"):
+                # layer-3 prediction (FunnelOps) differs from the recorded state: a diagnostic, never a verdict
+                drift[pc[1]] = drift.get(pc[1], 0) + 1
+                if drift[pc[1]] <= 2:
+                    log("   drift %s case=%s" % (pc[1], json.dumps(geom_signature(c), separators=(",", ":"))[:300]))
                 continue
             f = match_known_geom(known, prop, pc[1], c, where)
             if f:
@@ -341,6 +350,8 @@ def finish(prop, tier, seed, t0, cases, viols, stats, states, trans, known, rule
             else:
                 new.append((c, pc[1], where))
                 byclause[pc[1]] = byclause.get(pc[1], 0) + 1
+    if drift:
+        print("[geom] DRIFT (diagnostic, not a verdict): %s" % json.dumps(drift, sort_keys=True))
     if byclause:
         log("[%s] violations by clause: %s" % (prop, json.dumps(byclause, sort_keys=True)))
     log("[%s] stats: %s states=%d" % (prop, json.dumps(stats, sort_keys=True), states))
@@ -368,6 +379,7 @@ def finish(prop, tier, seed, t0, cases, viols, stats, states, trans, known, rule
         "samples": [geom_signature(c) for c in cases[:3]] + [{"violating": geom_signature(c), "clause": cl} for c, cl, _ in new[:5]],
         "models": [{k: m[k] for k in ("name", "generated", "distinct", "wall", "ok")} for m in models],
         "known_findings_observed": {fid: n for fid, (f, n) in known_hits.items()}, "violating_cases": len(seen),
+        "layer3_predictions": stats.get("l3", 0), "layer3_drift": drift,
     }
     cov.update(extra or {})
     core.write_evidence(prop, tier, seed, cov, ASSUME, time.time() - t0, len(seen))
@@ -436,6 +448,18 @@ def c19_check(prop, tier, seed, replay):
         if not r["ok"]:
             raise HarnessError("Corridor.tla: the geodesic criterion fails its own small-scope check:\n" + r["out"][-3000:])
         models = [dict(name="Corridor.tla criterion (Unique, NoShorterInside), MaxRects=%d XMax=%d" % (a, b), **{k: r[k] for k in ("generated", "distinct", "wall", "ok")})]
+        # layer 3: the transcription of geom.Shortest (FunnelOps: triangulation, dual graph, crossed diagonals, funnel over the
+        # fixed-capacity deque) explored on every corridor x every pair of lattice end points of a small bound
+        fa, fb, fh_ = (3, 3, "{2}") if tier == "quick" else (3, 4, "{1,2}")
+        r = core.run_tlc(work, "Funnel", "Funnel.tla", FUN_CFG % (fa, fb, fh_), workers=core.NCPU, tag="funnel", timeout=6000)
+        if not r["ok"]:
+            raise HarnessError("Funnel.tla: the transcribed design of geom.Shortest fails at small scope (a model finding, not a verdict on the code):\n" + r["out"][-3000:])
+        models.append(dict(name="Funnel.tla (FunnelOps: TriangulationTiles, TriangleCount, EveryPointCovered, DualIsTree, Returns, EndToStart, IsShortest, DequeFits), "
+                                "MaxRects=%d XMax=%d Heights=%s" % (fa, fb, fh_), **{k: r[k] for k in ("generated", "distinct", "wall", "ok")}))
+        for goal in ("GoalBend", "GoalTrim"):
+            g = core.run_tlc(work, "Funnel", "Funnel.tla", FUN_GOAL_CFG % goal, workers=4, tag="funnel-" + goal, timeout=3000)
+            if g["ok"] or not g.get("violated"):
+                raise HarnessError("Funnel.tla: goal state %s is not reached inside the bound (vacuous model)" % goal)
         if replay:
             with open(replay) as fh:
                 cases = [dict(json.load(fh)["case"])]
